@@ -68,3 +68,9 @@ chk('C12', 'exploration',
     '(delimiter triples including control characters and newline terminator, five line-break conventions); verdict, error tuples and acknowledgement body must be identical.',
     'Trusted: vlib/reencode.py (re-encoding through the reference tokenizer); values that are the text of an invalid composite are compared modulo their own component separator.',
     'metamorphic comparison of monitored runs across re-encodings', 'DESIGN.md 5 C12')
+chk('C08', 'exploration',
+    'The real X12->XML renderer and XML->X12 converter run on generated documents of every selectable map (markup-hostile data, seven delimiter settings, repeated loops, multi-set/group/interchange, '
+    'a not-used-element variant); the XML is parsed with expat and compared segment by segment with the generator\'s intended map paths and loop instances (bijection between loop elements and '
+    'instances), element by element with the reference designators, and the converted text with the source. Evidence lists the pop/push transitions observed.',
+    'Trusted: the generator\'s intended-path ground truth (vlib/gen_doc.py) and stdlib expat.',
+    'runtime round-trip monitor against generator ground truth', 'DESIGN.md 5 C08')
